@@ -454,6 +454,12 @@ def run(repo, rep):
     rule_byte_image(repo, rep)
     rep.run_borrowed(c09, {"C09-g": "C19-l"}, repo, only_sites=("scaling.py",))
     rule_table_generators_in_double(repo, rep)
+    rep.clause("C19-n", "the int16 table generator uses the reference's constants: 512 intervals, outputs scaled by 65536 / output range, mid-point at half a step, int16 clamp, word = slope << 16 + base (folded from the source)")
+    rule_round10(repo, rep)
+    rep.clause("C19-o", "a table is a function of the operator it is built for: the table modules keep no process-wide memo of generated tables [rule shared with C14-a]")
+    from . import c14 as _c14
+
+    rep.run_borrowed(_c14, {"C14-a": "C19-o"}, repo, only_sites=("softmax", "lut", "fp_math", "scaling", "numeric_util"))
 
 
 def _boundaries(repo, rep):
@@ -714,3 +720,58 @@ def rule_byte_image(repo, rep):
                 rep.bad("C19-m", f"ethosu/vela/{mname}.py:{q}", "values are reinterpreted as bytes, not converted",
                         f"`{norm(c)}`: a value conversion to a byte type: a 256-entry 32-bit table (softmax exp LUT) or an int16 constant is written to flash as truncated low bytes followed by stale data")
     rep.ok("C19-m", "ethosu/vela/npu_serialisation.py, tflite_writer.py", f"{n} functions scanned", "no value conversion to an 8-bit type (matcher checked on positive examples)")
+
+
+def rule_round10(repo, rep):
+    """(n) the int16 table generator follows the reference LUTPopulate<int16_t>: 512 intervals over the int16 input range, outputs scaled by
+    65536 / (output range) [the number of int16 codes, (max - min + 1)], mid-point at half a step, table words slope << 16 + base. The
+    constants are folded from the source with np.iinfo(np.int16) substituted.
+    (o) a table is a function of the operator it is built for: the table modules keep no process-wide memo [rule shared with C14-a]."""
+    lm = repo.mod("lut")
+    fn = lm.func("create_lut_int16_op")
+    site = "ethosu/vela/lut.py:create_lut_int16_op"
+
+    class Sub(ast.NodeTransformer):
+        def visit_Attribute(self, node):
+            t = str(norm(node))
+            if t in ("np.iinfo(np.int16).max", "numpy.iinfo(numpy.int16).max"):
+                return ast.copy_location(ast.Constant(32767), node)
+            if t in ("np.iinfo(np.int16).min", "numpy.iinfo(numpy.int16).min"):
+                return ast.copy_location(ast.UnaryOp(ast.USub(), ast.Constant(32768)), node)
+            return self.generic_visit(node)
+
+    import copy as _copy
+
+    defs = {}
+    for st in ast.walk(fn):
+        if isinstance(st, ast.Assign) and isinstance(st.targets[0], ast.Name):
+            defs.setdefault(st.targets[0].id, []).append(st.value)
+
+    def folded(name, part=None):
+        vs = defs.get(name) or []
+        if len(vs) != 1:
+            raise AnalysisError(f"create_lut_int16_op: `{name}` has {len(vs)} definitions")
+        e = vs[0]
+        if part == "numerator":
+            if not (isinstance(e, ast.BinOp) and isinstance(e.op, ast.Div)):
+                raise AnalysisError(f"create_lut_int16_op: `{name}` is not a quotient")
+            e = e.left
+        e = Sub().visit(_copy.deepcopy(e))
+        ast.fix_missing_locations(e)
+        return try_fold(e, default=None), str(norm(vs[0]))
+
+    for name, part, want, why in (
+        ("nbr_steps", None, 512, "the hardware table has 512 base / slope words"),
+        ("output_scaling_inv", "numerator", 65536, "the reference scales by the number of int16 codes, 65536 / (output_max - output_min): with 65535 base and slope words differ from LUTPopulate<int16_t> by one LSB"),
+        ("table_min", None, -32768, "int16 clamp"),
+        ("table_max", None, 32767, "int16 clamp"),
+    ):
+        got, txt = folded(name, part)
+        rep.check(got == want, "C19-n", site, f"`{name} = {txt[:80]}`" + (" (numerator)" if part else "") + f" folds to {want}", f"folds to {got!r}: {why}")
+    hs = defs.get("half_step") or []
+    rep.check(len(hs) == 1 and str(norm(hs[0])) in ("step / 2", "step / 2.0", "0.5 * step", "step * 0.5"), "C19-n", site, "`half_step` is half a step", f"`{str(norm(hs[0])) if hs else None}`")
+    words = [st for st in ast.walk(fn) if isinstance(st, ast.Assign) and str(norm(st.targets[0])) == "lut[i]"]
+    slopes = defs.get("slope") or []
+    rep.check(len(words) == 1 and str(norm(words[0].value)) in ("slope + base", "base + slope") and len(slopes) == 1 and str(norm(slopes[0])).endswith("<< 16"), "C19-n", site,
+              "table word = (difference to the next sample) << 16 + base", f"`{str(norm(words[0].value)) if words else None}` / `{str(norm(slopes[0])) if slopes else None}`")
+    rep.floor("C19-n", 6)
